@@ -1690,12 +1690,45 @@ def m_string_retain(I, c, args, fr):
     s.b[:] = keep
     return UNIT
 
+def _scalar_of(I, bs):
+    """WChar for the well-formed multi-byte sequence bs (byte terms)"""
+    bs = [bv(x, 8) for x in bs]
+    n = len(bs)
+    if n == 2:
+        cp = z3.ZeroExt(21, z3.Concat(z3.Extract(4, 0, bs[0]), z3.Extract(5, 0, bs[1])))
+    elif n == 3:
+        cp = z3.ZeroExt(16, z3.Concat(z3.Extract(3, 0, bs[0]), z3.Extract(5, 0, bs[1]), z3.Extract(5, 0, bs[2])))
+    else:
+        cp = z3.ZeroExt(11, z3.Concat(z3.Extract(2, 0, bs[0]), z3.Extract(5, 0, bs[1]), z3.Extract(5, 0, bs[2]), z3.Extract(5, 0, bs[3])))
+    w = WChar(simp(cp), n)
+    if not hasattr(I, '_wchars'):
+        I._wchars = {}
+    I._wchars[w.cp.get_id()] = w
+    return w
+
 @model('String::from_utf8_lossy')
 def m_from_utf8_lossy(I, c, args, fr):
-    r = m_from_utf8(I, c, args, fr)
-    if r.variant == 'Ok':
-        return Adt('Cow', 'Borrowed', 0, [r.fields[0]])
-    raise Unsupported('from_utf8_lossy on invalid data')
+    s = as_slice(args[0])
+    items = s.items()
+    if any(isinstance(x, (WChar, DecRun, FloatLit)) for x in items):
+        return Adt('Cow', 'Borrowed', 0, [SliceRef(s.back, s.lo, s.hi, 'str')])
+    from oracles.utf8 import utf8_lossy_segments
+    segs = utf8_lossy_segments(I.ctx, items)
+    if all(k == 'ok' and n == 1 for k, _, n in segs):
+        return Adt('Cow', 'Borrowed', 0, [SliceRef(s.back, s.lo, s.hi, 'str')])
+    out = []
+    for k, st, n in segs:
+        if k == 'bad':
+            out.extend([0xef, 0xbf, 0xbd])          # U+FFFD
+        elif n == 1:
+            out.append(items[st])
+        elif all(not is_sym(x) for x in items[st:st + n]):
+            out.extend(items[st:st + n])
+        else:
+            out.append(_scalar_of(I, items[st:st + n]))
+    if all(k == 'ok' for k, _, _ in segs):
+        return Adt('Cow', 'Borrowed', 0, [SliceRef(out, 0, len(out), 'str')])
+    return Adt('Cow', 'Owned', 1, [StrBuf(out)])
 
 @model('NonZero::get')
 def m_nonzero_get(I, c, args, fr):
@@ -1943,6 +1976,22 @@ def m_try_from(I, c, args, fr):
     dts = _prim_type(dst, fr); sts = _prim_type(src, fr)
     # repository impls first
     if dts is None or sts is None:
+        dd0 = subst(dst, fr.env) if (dst is not None and fr is not None and fr.env) else dst
+        while dd0 is not None and dd0[0] == 'ref':
+            dd0 = dd0[2]
+        if dd0 is not None and dd0[0] == 'array':
+            # Vec<T> / Box<[T]> -> [T; N] (Err gives the vector back), &[T] -> [T; N] / &[T; N] (TryFromSliceError)
+            n = int(dd0[2]) if str(dd0[2]).isdigit() else None
+            v = args[0]
+            if n is not None:
+                if isinstance(v, VecObj):
+                    return ok(Array(list(v.v))) if len(v.v) == n else err(v)
+                sl = as_slice(v)
+                if len(sl) != n:
+                    return err(Opaque('TryFromSliceError'))
+                if dst[0] == 'ref':
+                    return ok(sl)
+                return ok(Array([copy_value(x) for x in sl.items()]))
         dd = subst(dst, fr.env) if (dst is not None and fr is not None and fr.env) else dst
         if dd is not None:
             hit = I.prog.find_impl('TryFrom', 'try_from', dd, ())
